@@ -1,4 +1,5 @@
 pub mod component;
+pub mod lockstep;
 
 use crate::common::{Report, Rng};
 
@@ -9,6 +10,9 @@ pub struct Ctx {
     pub shards: u64,
     pub scale: f64,
     pub replay: Option<String>,
+    pub flavors: Option<String>,
+    pub quick_n: Option<u64>,
+    pub thorough_n: Option<u64>,
 }
 
 impl Ctx {
@@ -28,6 +32,7 @@ pub fn dispatch(engine: &str, ctx: &Ctx, rng: Rng, rep: &mut Report) {
         "bloom" => component::run_bloom(ctx, rng, rep),
         "keys" => component::run_keys(ctx, rng, rep),
         "policy" => component::run_policy(ctx, rng, rep),
+        "lockstep" => lockstep::run(ctx, rng, rep),
         other => rep.inconclusive(format!("unknown engine {other}")),
     }
 }
